@@ -67,7 +67,10 @@ def afilter_case(rng):
             r["b"] = {"c": pick([0, 1, 2])}
         recs.append(r)
     data = {"recs": recs, "nums": [rng.randint(0, 6) for _ in range(rng.randint(0, 6))],
-            "words": [pick(["a", "A", "b", "B", "c"]) for _ in range(rng.randint(0, 5))]}
+            "words": [pick(["a", "A", "b", "B", "c"]) for _ in range(rng.randint(0, 5))],
+            # floats whose sum depends on how they are added up
+            "floats": pick([[0.1, 0.2, 0.3], [0.1] * 10, [1e16, 1.0, -1e16], [1.1, 2.2, 3.3], [0.5, 0.25]]),
+            "frecs": [{"w": x} for x in pick([[0.1, 0.2, 0.3], [0.1, 0.7, 0.2], [2.5]])]}
     dflt = [["default", C(pick(["D", 9, "x"]))]] if rng.random() < 0.6 else []
     cs = [["case_sensitive", C(True)]] if rng.random() < 0.3 else []
     attr = pick(["a", "b.c", "id"])
@@ -85,6 +88,8 @@ def afilter_case(rng):
         F(F(F(N("recs"), pick(["selectattr", "rejectattr"]), [C("a"), C("none")]), "list"), "length"),
         F(F(F(N("recs"), "selectattr", [C("id"), C("ge"), C(rng.randint(0, 3))]), "map", (), [["attribute", C("id")]]), "list"),
         F(F(N("words"), "map", [C("upper")]), "list"), F(N("nums"), "list"),
+        F(N("floats"), "sum"), F(N("floats"), "sum", (), [["start", C(0.5)]]),
+        F(N("frecs"), "sum", (), [["attribute", C("w")]]), F(F(N("floats"), "map", [C("abs")]), "sum"),
     ]
     body = []
     for i in range(rng.randint(2, 5)):
